@@ -37,6 +37,7 @@ type WD struct {
 	K      string   // text | rich | center | button | list | field
 	S      string   `json:",omitempty"` // text content / button label / field value
 	Rep    int      `json:",omitempty"` // content = S repeated Rep times joined by "\n" (0 = S as is)
+	Cat    int      `json:",omitempty"` // content = S repeated Cat times on one line (before Rep is applied)
 	Wrap   bool     `json:",omitempty"` // text/rich: soft wrap
 	Segs   []string `json:",omitempty"` // rich: segments
 	C      *WD      `json:",omitempty"` // center: child
@@ -56,7 +57,8 @@ type DrawStep struct {
 type SD struct {
 	W, H   int
 	Fg     int      `json:",omitempty"` // palette index + 1 of the fill colour, 0 = default
-	Writes [][3]int `json:",omitempty"` // WriteCell(c, r, ASCII code) in order; may be outside
+	Writes [][3]int `json:",omitempty"` // WriteCell(c, r, code point) in order; may be outside
+	Auto   bool     `json:",omitempty"` // cells are written with Width 0 (left to the library to measure)
 	Kids   []KD     `json:",omitempty"`
 }
 
@@ -216,10 +218,14 @@ func (p *probe) Draw(ctx vxfw.DrawContext) (vxfw.Surface, error) {
 }
 
 func (d *WD) content() string {
-	if d.Rep > 0 {
-		return strings.TrimSuffix(strings.Repeat(d.S+"\n", d.Rep), "\n")
+	s := d.S
+	if d.Cat > 0 {
+		s = strings.Repeat(s, d.Cat)
 	}
-	return d.S
+	if d.Rep > 0 {
+		return strings.TrimSuffix(strings.Repeat(s+"\n", d.Rep), "\n")
+	}
+	return s
 }
 
 // Sig names the widget nesting, e.g. "center(list(text,button))".
@@ -414,12 +420,18 @@ func buildSurface(d *SD, w vxfw.Widget, g *trace.Interner, notes *[]string) (vxf
 	cells := [][]int{}
 	for _, wr := range d.Writes {
 		c, r, ch := wr[0], wr[1], string(rune(wr[2]))
-		cell := vaxis.Cell{Character: vaxis.Character{Grapheme: ch, Width: 1}, Style: style}
+		// columns the terminal gives the grapheme: a logged fact, measured
+		// without the library (go-runewidth)
+		gw := termcmd.LegacyWidth(ch)
+		cell := vaxis.Cell{Character: vaxis.Character{Grapheme: ch, Width: gw}, Style: style}
+		if d.Auto {
+			cell.Width = 0
+		}
 		if p, cls := guard(func() { s.WriteCell(uint16(c), uint16(r), cell) }); p {
 			*notes = append(*notes, "WriteCell:"+cls)
 		}
 		if c >= 0 && r >= 0 && c < d.W && r < d.H {
-			cells = append(cells, []int{c, r, g.ID(ch)})
+			cells = append(cells, []int{c, r, g.ID(ch), gw})
 		}
 	}
 	kids := []any{}
